@@ -82,6 +82,17 @@ CHECKS = {
             "decision, counters and the retained reference_batch after every call.",
             TRUST + "sklearn's choice among equidistant neighbours is unspecified (validity is checked instead); integer lattice points.",
             "TLA+ spec + TLC model checking + TLC trace validation with bracketed stochastic threshold", "5/C10"),
+    "C11": ("PCACD.tla: phases FillRef / FillTest / Monitor / Drifted, windows as index ranges of the stream, build when the test window fills, "
+            "sliding test window, scoring every `step` samples, embedded PageHinkley instance (burn_in 0, threshold round(0.01*window)), drift iff "
+            "it alarms, discarded sample + promotion of the test window after a drift, counter restart at 0. TLC: all score sequences over a "
+            "4-value set to depth 10/13 (window 2-3, step 1-2, PH threshold 0-1, user resets): silence until 2W / W after a drift, scores only on "
+            "schedule, drift <=> PH alarm on a scored sample, promotion, lifecycle refinement. Conformance: multivariate streams (2-4 features, "
+            "level / variance / correlation shifts, a stream whose test window equals the reference window, both metrics, both scaling modes) on "
+            "the real class; an independent kernel (sklearn PCA / StandardScaler / KernelDensity, numpy histograms per component on that "
+            "component's own support) supplies score and number of components for exactly the ranges the specification designates; TLC checks "
+            "ranges, schedule, the appended change score against the kernel, and every decision through the PageHinkley specification.",
+            TRUST + "sklearn / numpy numeric kernels; _change_score optional private read.",
+            "TLA+ spec + TLC model checking + TLC trace validation with an external numeric kernel table", "5/C11"),
     "C12": ("TLC explores Ensemble.tla (members as abstract lifecycle machines, four elections from Election.tla, own counters, reset fan-out) "
             "for 1-3 members, all vote schedules to depth 5/7: verdict = rule(member states), counters count updates, reset reaches everyone. "
             "Conformance: real StreamingEnsemble/BatchEnsemble with mixed members (DDM, EDDM, STEPD, ADWIN, PageHinkley, CUSUM, KdqTreeStreaming; "
